@@ -320,6 +320,20 @@ def run_case(case: dict) -> Result:
         if bad:
             res.bad('unique:' + bad[0] + ':' + str(op.get('op')), bad[1])
             break
+    # "at all times": a deep copy (of the state the program reached) carries the same attribution, each comment owned at most once
+    if not res.violations:
+        import copy
+        try:
+            cp = copy.deepcopy(root)
+        except Exception:  # noqa: BLE001 - C11's subject
+            cp = None
+        if cp is not None:
+            classes.add('stage:copy')
+            bad = check_unique(cp, False, 'in a deep copy')
+            if bad:
+                res.bad('unique:' + bad[0] + ':deepcopy', bad[1])
+            elif omap(cp) != omap(root):
+                res.bad('copy-attribution-differs', f'a deep copy attributes comments differently: {_mdiff(omap(root), omap(cp))} in {text!r}')
     return _done(res, classes)
 
 
